@@ -508,15 +508,15 @@ func (i *Interp) callSSA(caller *frame, fn *ssa.Function, args []value, env []va
 // skipInit lists packages whose initialisers are not run: what they set up is
 // stubbed or harnessed separately.
 var skipInit = map[string]bool{
-	modulePath + "/internal/flags":     true, // pflag registration and parsing of os.Args
+	modulePath + "/internal/flags": true, // pflag registration and parsing of os.Args
 	// internal/templater: only its explicit init() (go-task's own function table: shellQuote,
 	// q, splitLines, ...) is run, with the sprig table empty; see initPkg
-	modulePath + "/taskfile":           true, // chroma style registration
-	"runtime":                          true,
-	"syscall":                          true,
-	"time":                             true,
-	"reflect":                          true,
-	"net/http":                         true,
+	modulePath + "/taskfile": true, // chroma style registration
+	"runtime":                true,
+	"syscall":                true,
+	"time":                   true,
+	"reflect":                true,
+	"net/http":               true,
 }
 
 // initPkg runs the package initialiser lazily, the first time a function or a
